@@ -493,6 +493,34 @@ def build_cases(seed, tier):
     for i in range(2 if tier == 'quick' else 6):
         rules, ins = deep_grammar(rng)
         add('deep%d' % i, rules, False, ins, ['mix', 'deep'])
+    # directive spellings of a left-recursive grammar: `@leftrec` alone, with a redundant `@memoize` before or after it
+    # (`@leftrec` also enables memoization: the extra directive must change nothing), and written twice
+    for i in range(2 if tier != 'thorough' else 5):
+        rules = leftrec_grammar(rng, i)
+        for r_ in rules:
+            if r_['kind'] == 'rule' and 'leftrec' in r_['dirs']:
+                r_['dirs'] = [d for d in r_['dirs'] if d != 'memoize']
+        ins = []
+        for ex in gen.exported_rules(rules):
+            for s in leftrec_inputs(rng, rules, 12):
+                ins.append((ex, s))
+
+        def respell(mode):
+            out = []
+            for r_ in rules:
+                r_ = copy.deepcopy(r_)
+                if r_['kind'] == 'rule' and 'leftrec' in r_['dirs']:
+                    k = r_['dirs'].index('leftrec')
+                    if mode == 'after':
+                        r_['dirs'].insert(k + 1, 'memoize')
+                    elif mode == 'before':
+                        r_['dirs'].insert(k, 'memoize')
+                    elif mode == 'twice':
+                        r_['dirs'].insert(k, 'leftrec')
+                out.append(r_)
+            return out
+        for v, mode in enumerate(['orig', 'after', 'before', 'twice']):
+            add('spelllr%dv%d' % (i, v), respell(mode), False, ins, ['spell', 'leftrec'], group='spelllr%d' % i, variant=v)
     # lookaheads that get further than what follows them (error position: C10)
     for i in range(8 if tier == 'quick' else 24):
         rules, ins = lookfar_grammar(rng)
